@@ -502,3 +502,740 @@ Proof.
     pose proof (inv_idlt _ I _ _ H). lia.
   - intros f H Hid. cbn in H. apply (inv_fired _ I) in H. lia.
 Qed.
+
+(** * removal by the owner, and ops that cannot remove a key *)
+
+Lemma track_alive_or_gone x a recv ref p tr s :
+  Inv s -> Track x a recv ref p tr s -> a ∈ dead s -> Gone x s.
+Proof.
+  intros I T Hd k j Hj Hid. destruct (tr_job _ _ _ _ _ _ _ T _ _ Hj Hid) as (Ho & _).
+  apply (inv_alive _ I _ _ Hj). rewrite Ho. exact Hd.
+Qed.
+
+Lemma step_removes x a0 recv0 ref0 p0 tr o s :
+  Inv s -> Track x a0 recv0 ref0 p0 tr s -> removes a0 ref0 o -> spin s = false ->
+  Gone x (fst (step o s)).
+Proof.
+  intros I T R Hs.
+  destruct (decide (a0 ∈ dead s)) as [Hd|Hd].
+  { pose proof (track_alive_or_gone _ _ _ _ _ _ _ I T Hd) as G.
+    apply (step_gone x o s I (tr_lt _ _ _ _ _ _ _ T) G). }
+  assert (Hfields : forall k j, tbl s !! k = Some j -> j_id j = x -> j_owner j = a0 /\ j_ref j = ref0).
+  { intros k j Hj Hid. destruct (tr_job _ _ _ _ _ _ _ T _ _ Hj Hid) as (? & _ & ? & _). auto. }
+  unfold step. rewrite Hs. unfold if_alive, is_dead.
+  destruct R as [-> | [-> | [-> | ->]]]; rewrite bool_decide_eq_false_2 by exact Hd; cbn [fst].
+  - unfold cancel. destruct (jk_of s a0 !! ref0) as [k0|] eqn:E; cbn [fst].
+    + intros k j Hj Hid. cbn in Hj. apply lookup_delete_Some in Hj as [Hne Hj].
+      destruct (Hfields _ _ Hj Hid) as [Ho Hr]. pose proof (inv_own _ I _ _ Hj) as Hown. rewrite Ho, Hr, E in Hown. congruence.
+    + intros k j Hj Hid. destruct (Hfields _ _ Hj Hid) as [Ho Hr]. pose proof (inv_own _ I _ _ Hj) as Hown. rewrite Ho, Hr, E in Hown. discriminate.
+  - intros k j Hj Hid. pose proof (clear_no_owner _ _ _ _ I Hj) as Hno. cbn in Hj. apply delete_all_lookup_Some in Hj as [Hj _].
+    destruct (Hfields _ _ Hj Hid). contradiction.
+  - intros k j Hj Hid. cbn in Hj. change (tbl (clear s a0) !! k = Some j) in Hj. pose proof (clear_no_owner _ _ _ _ I Hj) as Hno.
+    cbn in Hj. apply delete_all_lookup_Some in Hj as [Hj _]. destruct (Hfields _ _ Hj Hid). contradiction.
+  - intros k j Hj Hid. pose proof (clear_no_owner _ _ _ _ I Hj) as Hno. cbn in Hj. apply delete_all_lookup_Some in Hj as [Hj _].
+    destruct (Hfields _ _ Hj Hid). contradiction.
+Qed.
+
+Lemma step_untouched k0 o s j0 :
+  Inv s -> ~ touches k0 o -> is_tick o = false -> tbl s !! k0 = Some j0 -> tbl (fst (step o s)) !! k0 = Some j0.
+Proof.
+  intros I Ht Hnt Hj. step_cases o s; cbn [fst]; try exact Hj; try discriminate.
+  - apply schedule_tbl_lookup. left. exact Hj.
+  - apply schedule_tbl_lookup. left. exact Hj.
+  - destruct v; cbn [fst]; [apply schedule_tbl_lookup; left|]; exact Hj.
+  - unfold cancel. destruct (jk_of s a !! ref) as [k1|] eqn:E; cbn [fst]; [|exact Hj]. cbn.
+    rewrite lookup_delete_ne; [exact Hj|]. intros ->. apply Ht. cbn. symmetry. exact (inv_jk _ I _ _ _ E).
+  - cbn. apply delete_all_lookup_Some. split; [exact Hj|]. intros Hin. apply values_elem in Hin as (r & Hr).
+    apply Ht. cbn. exists r. symmetry. exact (inv_jk _ I _ _ _ Hr).
+  - cbn. apply delete_all_lookup_Some. split; [exact Hj|]. intros Hin. apply values_elem in Hin as (r & Hr).
+    apply Ht. cbn. exists r. symmetry. exact (inv_jk _ I _ _ _ Hr).
+  - cbn. apply delete_all_lookup_Some. split; [exact Hj|]. intros Hin. apply values_elem in Hin as (r & Hr).
+    apply Ht. cbn. exists r. symmetry. exact (inv_jk _ I _ _ _ Hr).
+Qed.
+
+Lemma step_tbl_origin_nontick o s k j' :
+  is_tick o = false -> tbl (fst (step o s)) !! k = Some j' -> tbl s !! k = Some j' \/ j_id j' = nid s.
+Proof.
+  intros Hnt. step_cases o s; cbn [fst]; try (intros H; left; exact H); try discriminate.
+  - intros H. apply schedule_tbl_lookup in H as [H|(_ & _ & ->)]; [left; exact H|right; reflexivity].
+  - intros H. apply schedule_tbl_lookup in H as [H|(_ & _ & ->)]; [left; exact H|right; reflexivity].
+  - destruct v; cbn [fst]; [|intros H; left; exact H].
+    intros H. apply schedule_tbl_lookup in H as [H|(_ & _ & ->)]; [left; exact H|right; reflexivity].
+  - unfold cancel. destruct (jk_of s a !! ref); cbn [fst]; [|intros H; left; exact H].
+    cbn. intros H. apply lookup_delete_Some in H as [_ H]. left; exact H.
+  - cbn. intros H. apply delete_all_lookup_Some in H as [H _]. left; exact H.
+  - cbn. intros H. apply delete_all_lookup_Some in H as [H _]. left; exact H.
+  - cbn. intros H. apply delete_all_lookup_Some in H as [H _]. left; exact H.
+Qed.
+
+Lemma step_now o s : spin s = false -> now (fst (step o s)) = now s + op_dt o.
+Proof.
+  intros Hs. unfold step. rewrite Hs.
+  destruct o as [a recv ref d p|a recv ref i p|a recv ref v p|a ref|a|a ref|a|a|dt|dt|l]; unfold if_alive;
+    try (destruct (is_dead s a)); cbn; try lia.
+  - destruct v; cbn; lia.
+  - rewrite cancel_now. lia.
+Qed.
+
+Lemma elapsed_cons o ops : elapsed (o :: ops) = op_dt o + elapsed ops.
+Proof. reflexivity. Qed.
+Lemma elapsed_app l1 l2 : elapsed (l1 ++ l2) = elapsed l1 + elapsed l2.
+Proof. induction l1 as [|o l1 IH]; [reflexivity|]. rewrite <- app_comm_cons, !elapsed_cons, IH. lia. Qed.
+
+Lemma run_now ops : forall s, spin (run ops s) = false -> now (run ops s) = now s + elapsed ops.
+Proof.
+  induction ops as [|o ops IH]; intros s H; [cbn; lia|].
+  rewrite elapsed_cons. cbn [run] in *. destruct (spin s) eqn:E.
+  - rewrite step_spin_frozen, run_spin_frozen in H by (try rewrite step_spin_frozen; assumption). congruence.
+  - rewrite IH by exact H. rewrite step_now by exact E. lia.
+Qed.
+
+Lemma sched_step o a0 recv0 ref0 p0 s :
+  is_sched o a0 recv0 ref0 p0 -> spin s = false -> a0 ∉ dead s ->
+  exists tr nx, fst (step o s) = schedule s a0 recv0 ref0 p0 tr nx /\
+    ((exists d, o = OOnce a0 recv0 ref0 d p0 /\ tr = TOnce /\ nx = now s + d) \/
+     (exists i, o = OLoop a0 recv0 ref0 i p0 /\ tr = TLoop i /\ nx = now s + i) \/
+     (o = OCron a0 recv0 ref0 true p0 /\ tr = TCron)).
+Proof.
+  intros Hs Hsp Hd. unfold step. rewrite Hsp. unfold if_alive, is_dead.
+  destruct Hs as [(d & ->) | [(i & ->) | ->]]; rewrite bool_decide_eq_false_2 by exact Hd; cbn [fst]; do 2 eexists; (split; [reflexivity|]).
+  - left. eauto.
+  - right. left. eauto.
+  - right. right. eauto.
+Qed.
+
+(** * no spin without a non-positive interval *)
+
+Definition PosInv (s : sched) : Prop :=
+  spin s = false /\ forall k j i, tbl s !! k = Some j -> j_trig j = TLoop i -> 0 < i.
+
+Lemma advance_no_spin dd lo hi j :
+  (forall i, j_trig j = TLoop i -> 0 < i) -> adv_spin (snd (advance dd lo hi j)) = false.
+Proof.
+  intros H. unfold advance. destruct (j_trig j) as [|i|]; cbn [snd].
+  - destruct (hi <? j_next j); [reflexivity|]. destruct (j_next j <? lo - thr); reflexivity.
+  - specialize (H i eq_refl). destruct (hi <? j_next j); [reflexivity|].
+    rewrite (proj2 (Z.leb_gt i 0)) by lia.
+    destruct (hi <? (if j_next j <? lo - thr then lo + i else j_next j)); reflexivity.
+  - reflexivity.
+Qed.
+
+Lemma step_pos o s :
+  match o with OLoop _ _ _ i _ => 0 < i | _ => True end -> PosInv s -> PosInv (fst (step o s)).
+Proof.
+  intros Ho [Hs Hp].
+  assert (Hsched : forall a recv ref p tr nx, (forall i, tr = TLoop i -> 0 < i) ->
+            forall k j i, tbl (schedule s a recv ref p tr nx) !! k = Some j -> j_trig j = TLoop i -> 0 < i).
+  { intros a recv ref p tr nx Htr k j i H Ht. apply schedule_tbl_lookup in H as [H|(_ & _ & ->)]; [eapply Hp; eauto|auto]. }
+  unfold step. rewrite Hs.
+  destruct o as [a recv ref d p|a recv ref i p|a recv ref v p|a ref|a|a ref|a|a|dt|dt|l]; unfold if_alive;
+    try (destruct (is_dead s a); [split; assumption|]); cbn [fst].
+  - split; [exact Hs|]. apply Hsched. discriminate.
+  - split; [exact Hs|]. apply Hsched. intros i' [= <-]. exact Ho.
+  - destruct v; cbn [fst]; [|split; assumption]. split; [exact Hs|]. apply Hsched. discriminate.
+  - split; [rewrite cancel_spin; exact Hs|]. unfold cancel. destruct (jk_of s a !! ref); cbn [fst]; [|exact Hp].
+    cbn. intros k j i H. apply lookup_delete_Some in H as [_ H]. eapply Hp; eauto.
+  - split; [exact Hs|]. cbn. intros k j i H. apply delete_all_lookup_Some in H as [H _]. eapply Hp; eauto.
+  - split; assumption.
+  - split; [exact Hs|]. cbn. intros k j i H. apply delete_all_lookup_Some in H as [H _]. eapply Hp; eauto.
+  - split; [exact Hs|]. cbn. intros k j i H. apply delete_all_lookup_Some in H as [H _]. eapply Hp; eauto.
+  - split.
+    + cbn. rewrite Hs. cbn. apply not_true_iff_false. intros H. apply existsb_exists in H as ((k, j) & Hin & H).
+      apply elem_of_list_In, elem_of_map_to_list in Hin. cbn in H. rewrite advance_no_spin in H; [discriminate|].
+      intros i. eapply Hp; eauto.
+    + intros k j' i H Ht. apply tick_tbl_Some in H as (j & Hj & (_ & _ & _ & _ & _ & Htr) & _). eapply Hp; eauto. congruence.
+  - split; cbn; auto.
+  - split; cbn; auto.
+Qed.
+
+Lemma run_pos ops : forall s, loops_positive ops -> PosInv s -> PosInv (run ops s).
+Proof.
+  induction ops as [|o ops IH]; intros s Hl P; cbn; [exact P|].
+  inversion Hl; subst. apply IH; [assumption|]. apply step_pos; assumption.
+Qed.
+
+Lemma no_spin ops : loops_positive ops -> spin (run ops init) = false.
+Proof.
+  intros H. apply (run_pos ops init H). split; [reflexivity|]. intros k j i Hj. cbn in Hj. rewrite lookup_empty in Hj. discriminate.
+Qed.
+
+(** * jobs die with their actor *)
+
+Lemma dead_no_jobs s (a : bytes) : Inv s -> a ∈ dead s ->
+  (forall k j, tbl s !! k = Some j -> j_owner j <> a) /\ jk_of s a = ∅.
+Proof.
+  intros I Hd. split; [|apply (inv_deadjk _ I); exact Hd].
+  intros k j Hj Ho. apply (inv_alive _ I _ _ Hj). rewrite Ho. exact Hd.
+Qed.
+
+Lemma died_is_dead s (a : bytes) : spin s = false -> a ∈ dead (fst (step (ODied a) s)).
+Proof.
+  intros Hs. unfold step. rewrite Hs. unfold if_alive, is_dead.
+  destruct (bool_decide (a ∈ dead s)) eqn:E; cbn [fst]; [apply bool_decide_eq_true in E; exact E|]. cbn. set_solver.
+Qed.
+
+Lemma restarted_clears s (a : bytes) : Inv s -> spin s = false -> a ∉ dead s ->
+  let s' := fst (step (ORestarted a) s) in
+  (forall k j, tbl s' !! k = Some j -> j_owner j <> a) /\ jk_of s' a = ∅.
+Proof.
+  intros I Hs Hd. unfold step. rewrite Hs. unfold if_alive, is_dead. rewrite bool_decide_eq_false_2 by exact Hd. cbn [fst].
+  split.
+  - intros k j Hj. eapply clear_no_owner; eauto.
+  - unfold clear. rewrite jk_of_with_jk, decide_True by reflexivity. reflexivity.
+Qed.
+
+(** every Tell of a job owned by a dead actor was done before a step *)
+Lemma step_fired_dead_owner o s (a0 : bytes) f :
+  Inv s -> a0 ∈ dead s -> In f (fired (fst (step o s))) -> f_owner f = a0 -> In f (fired s).
+Proof.
+  intros I Hd H Ho. rewrite step_fired in H. apply in_app_iff in H as [H|H]; [exact H|exfalso].
+  destruct (spin s); [destruct H|]. destruct o; try destruct H.
+  unfold tick_new in H. apply in_flat_map in H as ((k, j) & Hin & Hf). apply elem_of_list_In, elem_of_map_to_list in Hin.
+  cbn in Hf. apply advance_fires in Hf as (t & -> & _); [|lia]. cbn in Ho.
+  apply (inv_alive _ I _ _ Hin). rewrite Ho. exact Hd.
+Qed.
+
+Lemma run_fired_dead_owner ops (a0 : bytes) f : forall s,
+  Inv s -> a0 ∈ dead s -> In f (fired (run ops s)) -> f_owner f = a0 -> In f (fired s).
+Proof.
+  induction ops as [|o ops IH]; intros s I Hd H Ho; cbn in H; [exact H|].
+  apply (step_fired_dead_owner o s a0 f I Hd); [|exact Ho].
+  apply IH; [apply step_inv, I|apply step_dead_mono, Hd|exact H|exact Ho].
+Qed.
+
+(** * Once *)
+
+Lemma gone_dec x s : Gone x s \/ exists k j, tbl s !! k = Some j /\ j_id j = x.
+Proof.
+  destruct (decide (Exists (fun kj : bytes * job => j_id (snd kj) = x) (map_to_list (tbl s)))) as [H|H].
+  - right. apply Exists_exists in H as ((k, j) & Hin & Hid). apply elem_of_map_to_list in Hin. exists k, j. auto.
+  - left. intros k j Hj Hid. apply H. apply Exists_exists. exists (k, j). split; [apply elem_of_map_to_list; exact Hj|exact Hid].
+Qed.
+
+Lemma step_tick dt s : spin s = false -> fst (step (OTick dt) s) = tick dt s.
+Proof. intros H. unfold step. rewrite H. reflexivity. Qed.
+
+Lemma step_fires_nontick x o s : is_tick o = false -> fires_of x (fst (step o s)) = fires_of x s.
+Proof.
+  intros Hnt. rewrite (fires_of_app x s _ _ (step_fired o s)). destruct (spin s); [apply app_nil_r|].
+  destruct o; try apply app_nil_r. discriminate.
+Qed.
+
+Lemma tick_fires_job x dt s k j : Inv s -> tbl s !! k = Some j -> j_id j = x ->
+  fires_of x (tick dt s) = fires_of x s ++ fst (advance (dead s) (now s) (now s + Z.max dt 0) j) /\
+  tbl (tick dt s) !! k = adv_keep j (snd (advance (dead s) (now s) (now s + Z.max dt 0) j)) /\
+  (forall k' j', tbl (tick dt s) !! k' = Some j' -> j_id j' = x -> k' = k).
+Proof.
+  intros I Hj Hid. split; [|split].
+  - rewrite (fires_of_app x s (tick_new dt s)) by reflexivity. f_equal. eapply tick_new_job; eauto.
+  - rewrite tick_tbl_lookup, Hj. reflexivity.
+  - intros k' j' H Hid'. apply tick_tbl_Some in H as (j0 & Hj0 & (Hi & _) & _).
+    eapply (inv_uniq _ I); eauto. congruence.
+Qed.
+
+Record OnceInv (x : N) (D : Z) (s : sched) : Prop := mkOnceInv {
+  oi_job : forall k j, tbl s !! k = Some j -> j_id j = x -> j_next j = D /\ fires_of x s = [];
+  oi_len : (length (fires_of x s) <= 1)%nat;
+  oi_time : forall f, In f (fires_of x s) -> D <= f_time f;
+}.
+
+Lemma step_once_inv x a0 recv0 ref0 p0 D o s :
+  Inv s -> Track x a0 recv0 ref0 p0 TOnce s -> OnceInv x D s -> OnceInv x D (fst (step o s)).
+Proof.
+  intros I T O. destruct (spin s) eqn:Es; [rewrite step_spin_frozen by exact Es; exact O|].
+  destruct (is_tick o) eqn:Et.
+  - destruct o; try discriminate. rewrite step_tick by exact Es.
+    destruct (gone_dec x s) as [G|(k & j & Hj & Hid)].
+    + destruct (step_gone x (OTick dt) s I (tr_lt _ _ _ _ _ _ _ T) G) as [G' E]. rewrite step_tick in G', E by exact Es.
+      constructor; [intros k j Hj Hid; exfalso; exact (G' _ _ Hj Hid)|rewrite E; apply O|rewrite E; apply O].
+    + destruct (tick_fires_job x dt s k j I Hj Hid) as (Ef & Ek & Hu).
+      destruct (tr_job _ _ _ _ _ _ _ T _ _ Hj Hid) as (_ & _ & _ & _ & Htr).
+      destruct (oi_job _ _ _ O _ _ Hj Hid) as [Hn Hf0]. rewrite Hf0 in Ef. cbn [app] in Ef.
+      unfold advance in Ef, Ek. rewrite Htr, Hn in Ef, Ek.
+      destruct (now s + Z.max dt 0 <? D) eqn:E1; cbn [fst snd adv_keep] in Ef, Ek.
+      * constructor; rewrite Ef; [|cbn [length]; lia|cbn [In]; tauto].
+        intros k' j' Hj' Hid'. assert (k' = k) by (eapply Hu; eauto). subst k'. rewrite Ek in Hj'. injection Hj' as <-. auto.
+      * destruct (D <? now s - thr) eqn:E2; cbn [fst snd adv_keep] in Ef, Ek.
+        -- constructor; rewrite Ef; [|cbn [length]; lia|cbn [In]; tauto].
+           intros k' j' Hj' Hid'. assert (k' = k) by (eapply Hu; eauto). subst k'. rewrite Ek in Hj'. discriminate.
+        -- constructor; rewrite Ef; [|cbn [length]; lia|intros f [<-|[]]; cbn; lia].
+           intros k' j' Hj' Hid'. assert (k' = k) by (eapply Hu; eauto). subst k'. rewrite Ek in Hj'. discriminate.
+  - pose proof (step_fires_nontick x o s Et) as E. constructor; [|rewrite E; apply O|rewrite E; apply O].
+    intros k j' Hj' Hid. rewrite E. apply (step_tbl_origin_nontick o s k j' Et) in Hj' as [Hj'|Hn].
+    + exact (oi_job _ _ _ O _ _ Hj' Hid).
+    + pose proof (tr_lt _ _ _ _ _ _ _ T). lia.
+Qed.
+
+Lemma run_once_inv x a0 recv0 ref0 p0 D ops : forall s,
+  Inv s -> Track x a0 recv0 ref0 p0 TOnce s -> OnceInv x D s -> OnceInv x D (run ops s).
+Proof.
+  induction ops as [|o ops IH]; intros s I T O; cbn; [exact O|].
+  apply IH; [apply step_inv, I|apply step_track, T|eapply step_once_inv; eauto].
+Qed.
+
+Lemma fires_of_fresh x s : Inv s -> (nid s <= x)%N -> fires_of x s = [].
+Proof.
+  intros I H. unfold fires_of. apply filter_none. intros f Hf. apply (inv_fired _ I) in Hf. apply N.eqb_neq. lia.
+Qed.
+
+Lemma schedule_fires x s a recv ref p tr nx : fires_of x (schedule s a recv ref p tr nx) = fires_of x s.
+Proof. reflexivity. Qed.
+
+Lemma schedule_once_inv s a recv ref p nx : Inv s ->
+  OnceInv (nid s) nx (schedule s a recv ref p TOnce nx).
+Proof.
+  intros I. constructor; rewrite schedule_fires, fires_of_fresh by (auto; lia); cbn; [|lia|tauto].
+  intros k j H Hid. apply schedule_tbl_lookup in H as [H|(_ & _ & ->)]; [|cbn; auto].
+  pose proof (inv_idlt _ I _ _ H). lia.
+Qed.
+
+(** the Once job of call [x] is still queued, not yet due / has been told exactly once, at its instant *)
+Definition Pending (x : N) (k : bytes) (D : Z) (s : sched) : Prop :=
+  exists j, tbl s !! k = Some j /\ j_id j = x /\ now s <= D.
+Definition Done (x : N) (D : Z) (s : sched) : Prop :=
+  Gone x s /\ exists f, fires_of x s = [f] /\ f_time f = D.
+
+Lemma step_once_progress x a0 recv0 ref0 p0 k D o s :
+  Inv s -> Track x a0 recv0 ref0 p0 TOnce s -> OnceInv x D s -> spin s = false ->
+  is_stall o = false -> ~ touches k o -> Pending x k D s ->
+  (Pending x k D (fst (step o s)) \/ Done x D (fst (step o s))) /\
+  (forall dt, o = OTick dt -> D <= now s + Z.max dt 0 -> Done x D (fst (step o s))).
+Proof.
+  intros I T O Es Hst Hto (j & Hj & Hid & Hnow).
+  destruct (is_tick o) eqn:Et.
+  - destruct o; try discriminate. rewrite step_tick by exact Es.
+    destruct (tick_fires_job x dt s k j I Hj Hid) as (Ef & Ek & Hu).
+    destruct (tr_job _ _ _ _ _ _ _ T _ _ Hj Hid) as (_ & _ & _ & _ & Htr).
+    destruct (oi_job _ _ _ O _ _ Hj Hid) as [Hn Hf0]. rewrite Hf0 in Ef. cbn [app] in Ef.
+    unfold advance in Ef, Ek. rewrite Htr, Hn in Ef, Ek.
+    destruct (now s + Z.max dt 0 <? D) eqn:E1; cbn [fst snd adv_keep] in Ef, Ek.
+    + split; [left; exists j; cbn; repeat split; auto; lia|]. intros dt' [= <-] Hd. lia.
+    + rewrite (proj2 (Z.ltb_ge D (now s - thr))) in Ef, Ek by (unfold thr; lia). cbn [fst snd adv_keep] in Ef, Ek.
+      assert (Dn : Done x D (tick dt s)).
+      { split.
+        - intros k' j' Hj' Hid'. assert (k' = k) by (eapply Hu; eauto). subst k'. rewrite Ek in Hj'. discriminate.
+        - eexists. split; [exact Ef|]. cbn. lia. }
+      split; [right; exact Dn|intros; exact Dn].
+  - split; [left|intros dt ->; discriminate].
+    exists j. split; [apply step_untouched; assumption|]. split; [exact Hid|].
+    rewrite step_now by exact Es. destruct o; cbn; try lia; discriminate.
+Qed.
+
+Lemma done_stable x D ops s : Inv s -> (x < nid s)%N -> Done x D s -> Done x D (run ops s).
+Proof.
+  intros I Hx [G (f & Ef & Ht)]. destruct (run_gone x ops s I Hx G) as [G' E]. split; [exact G'|]. exists f. rewrite E. auto.
+Qed.
+
+Lemma run_once_progress x a0 recv0 ref0 p0 k D ops : forall s,
+  Inv s -> Track x a0 recv0 ref0 p0 TOnce s -> OnceInv x D s ->
+  no_stall ops -> Forall (fun o => ~ touches k o) ops -> spin (run ops s) = false ->
+  Pending x k D s \/ Done x D s ->
+  Pending x k D (run ops s) \/ Done x D (run ops s).
+Proof.
+  induction ops as [|o ops IH]; intros s I T O Hns Hto Hsp H; cbn; [exact H|].
+  inversion Hns; subst. inversion Hto; subst. cbn in Hsp.
+  assert (Es : spin s = false).
+  { destruct (spin s) eqn:E; [|reflexivity]. rewrite step_spin_frozen, run_spin_frozen in Hsp by (try rewrite step_spin_frozen; assumption). congruence. }
+  apply IH; try assumption; [apply step_inv, I|apply step_track, T|eapply step_once_inv; eauto|].
+  destruct H as [P|Dn].
+  - eapply step_once_progress; eauto.
+  - right. apply (done_stable x D [o] s I (tr_lt _ _ _ _ _ _ _ T) Dn).
+Qed.
+
+(** dead letters: a Tell flagged dead went to a terminated receiver *)
+Definition DL (s : sched) : Prop := forall f, In f (fired s) -> f_dead f = true -> f_recv f ∈ dead s.
+
+Lemma step_dl o s : DL s -> DL (fst (step o s)).
+Proof.
+  intros H f Hf Hd. rewrite step_fired in Hf. apply in_app_iff in Hf as [Hf|Hf]; [apply step_dead_mono, (H _ Hf Hd)|].
+  destruct (spin s) eqn:Es; [destruct Hf|]. destruct o; try destruct Hf. rewrite step_tick by exact Es.
+  unfold tick_new in Hf. apply in_flat_map in Hf as ((k, j) & Hin & Hf). cbn in Hf.
+  apply advance_fires in Hf as (t & -> & _); [|lia]. cbn in Hd |- *. apply bool_decide_eq_true in Hd. exact Hd.
+Qed.
+Lemma run_dl ops : forall s, DL s -> DL (run ops s).
+Proof. induction ops as [|o ops IH]; intros s H; cbn; [exact H|]. apply IH, step_dl, H. Qed.
+Lemma dl_init : DL init.
+Proof. intros f []. Qed.
+
+(** * Loop *)
+
+Lemma map_seq_shift {A} (f : nat -> A) a c : map f (seq a c) = map (fun q => f (a + q)%nat) (seq 0 c).
+Proof.
+  revert a. induction c as [|c IH]; intros a; [reflexivity|]. cbn [seq map]. f_equal; [f_equal; lia|].
+  rewrite IH. rewrite <- seq_shift, map_map. apply map_ext. intros q. f_equal. lia.
+Qed.
+
+Lemma grid_app t0 i m c :
+  grid t0 i (m + c) = grid t0 i m ++ map (fun q => t0 + (Z.of_nat m + 1) * i + Z.of_nat q * i) (seq 0 c).
+Proof.
+  unfold grid. rewrite seq_app, map_app. f_equal. rewrite map_seq_shift. apply map_ext. intros q.
+  rewrite !Nat2Z.inj_add. change (Z.of_nat 1) with 1. ring.
+Qed.
+
+Lemma tick_now dt s : now (tick dt s) = now s + Z.max dt 0.
+Proof. reflexivity. Qed.
+
+Definition LoopInv (x : N) (t0 i : Z) (s : sched) : Prop :=
+  exists m : nat,
+    map f_time (fires_of x s) = grid t0 i m /\ t0 + Z.of_nat m * i <= now s /\
+    (forall k j, tbl s !! k = Some j -> j_id j = x -> j_next j = t0 + (Z.of_nat m + 1) * i /\ now s < j_next j).
+
+Lemma step_loop_inv x a0 recv0 ref0 p0 t0 i0 o s :
+  Inv s -> Track x a0 recv0 ref0 p0 (TLoop i0) s -> 0 < i0 -> is_stall o = false ->
+  LoopInv x t0 i0 s -> LoopInv x t0 i0 (fst (step o s)).
+Proof.
+  intros I T Hi Hst L. destruct (spin s) eqn:Es; [rewrite step_spin_frozen by exact Es; exact L|].
+  destruct L as (m & Hf & Hle & Hjob).
+  destruct (is_tick o) eqn:Et.
+  - destruct o; try discriminate. rewrite step_tick by exact Es.
+    destruct (gone_dec x s) as [G|(k & j & Hj & Hid)].
+    + destruct (step_gone x (OTick dt) s I (tr_lt _ _ _ _ _ _ _ T) G) as [G' E]. rewrite step_tick in G', E by exact Es.
+      exists m. rewrite E, tick_now. split; [exact Hf|]. split; [lia|]. intros k j Hj Hid. exfalso. exact (G' _ _ Hj Hid).
+    + destruct (tick_fires_job x dt s k j I Hj Hid) as (Ef & Ek & Hu).
+      destruct (tr_job _ _ _ _ _ _ _ T _ _ Hj Hid) as (_ & _ & _ & _ & Htr).
+      destruct (Hjob _ _ Hj Hid) as [Hn Hlt].
+      unfold advance in Ef, Ek. rewrite Htr in Ef, Ek.
+      destruct (now s + Z.max dt 0 <? j_next j) eqn:E1; cbn [fst snd adv_keep] in Ef, Ek.
+      * exists m. rewrite Ef, app_nil_r, tick_now. split; [exact Hf|]. split; [lia|].
+        intros k' j' Hj' Hid'. assert (k' = k) by (eapply Hu; eauto). subst k'. rewrite Ek in Hj'. injection Hj' as <-. split; [exact Hn|lia].
+      * rewrite (proj2 (Z.leb_gt i0 0)) in Ef, Ek by lia.
+        rewrite (proj2 (Z.ltb_ge (j_next j) (now s - thr))) in Ef, Ek by (unfold thr; lia).
+        rewrite E1 in Ef, Ek. cbn [fst snd adv_keep] in Ef, Ek.
+        set (c := (now s + Z.max dt 0 - j_next j) / i0 + 1) in *.
+        assert (Hq : 0 <= (now s + Z.max dt 0 - j_next j) / i0) by (apply Z.div_pos; lia).
+        assert (Hm1 : i0 * ((now s + Z.max dt 0 - j_next j) / i0) <= now s + Z.max dt 0 - j_next j) by (apply Z.mul_div_le; lia).
+        assert (Hm2 : now s + Z.max dt 0 - j_next j < i0 * Z.succ ((now s + Z.max dt 0 - j_next j) / i0)) by (apply Z.mul_succ_div_gt; lia).
+        exists (m + Z.to_nat c)%nat. rewrite Ef, map_app, Hf, tick_now, grid_app.
+        rewrite loop_fires_times by lia. rewrite Hn.
+        assert (Hc : Z.of_nat (m + Z.to_nat c) = Z.of_nat m + c) by (subst c; lia).
+        split; [reflexivity|]. split; [subst c; nia|].
+        intros k' j' Hj' Hid'. assert (k' = k) by (eapply Hu; eauto). subst k'. rewrite Ek in Hj'. injection Hj' as <-.
+        cbn [j_next set_next]. rewrite Hc. split; [rewrite Hn; ring|subst c; nia].
+  - exists m. rewrite (step_fires_nontick x o s Et). rewrite step_now by exact Es.
+    assert (Hz : op_dt o = 0) by (destruct o; try reflexivity; discriminate). rewrite Hz, Z.add_0_r.
+    split; [exact Hf|]. split; [exact Hle|].
+    intros k j' Hj' Hid. apply (step_tbl_origin_nontick o s k j' Et) in Hj' as [Hj'|Hn'].
+    + exact (Hjob _ _ Hj' Hid).
+    + pose proof (tr_lt _ _ _ _ _ _ _ T). lia.
+Qed.
+
+Lemma run_loop_inv x a0 recv0 ref0 p0 t0 i0 ops : forall s,
+  Inv s -> Track x a0 recv0 ref0 p0 (TLoop i0) s -> 0 < i0 -> no_stall ops ->
+  LoopInv x t0 i0 s -> LoopInv x t0 i0 (run ops s).
+Proof.
+  induction ops as [|o ops IH]; intros s I T Hi Hns L; cbn; [exact L|]. inversion Hns; subst.
+  apply IH; [apply step_inv, I|apply step_track, T|exact Hi|assumption|eapply step_loop_inv; eauto].
+Qed.
+
+Definition Present (x : N) (k : bytes) (s : sched) : Prop := exists j, tbl s !! k = Some j /\ j_id j = x.
+
+Lemma step_present x a0 recv0 ref0 p0 i0 k o s :
+  Inv s -> Track x a0 recv0 ref0 p0 (TLoop i0) s -> 0 < i0 -> spin s = false -> ~ touches k o ->
+  Present x k s -> Present x k (fst (step o s)).
+Proof.
+  intros I T Hi Es Hto (j & Hj & Hid). destruct (is_tick o) eqn:Et.
+  - destruct o; try discriminate. rewrite step_tick by exact Es.
+    destruct (tick_fires_job x dt s k j I Hj Hid) as (_ & Ek & _).
+    destruct (tr_job _ _ _ _ _ _ _ T _ _ Hj Hid) as (_ & _ & _ & _ & Htr).
+    assert (Hk : exists j', adv_keep j (snd (advance (dead s) (now s) (now s + Z.max dt 0) j)) = Some j').
+    { unfold advance. rewrite Htr. destruct (now s + Z.max dt 0 <? j_next j); [eexists; reflexivity|].
+      rewrite (proj2 (Z.leb_gt i0 0)) by lia.
+      destruct (now s + Z.max dt 0 <? (if j_next j <? now s - thr then now s + i0 else j_next j)); eexists; reflexivity. }
+    destruct Hk as (j' & Hk). exists j'. rewrite Ek. split; [exact Hk|].
+    apply advance_keep' in Hk as [(Hi' & _) _]. congruence.
+  - exists j. split; [apply step_untouched; assumption|exact Hid].
+Qed.
+
+Lemma run_present x a0 recv0 ref0 p0 i0 k ops : forall s,
+  Inv s -> Track x a0 recv0 ref0 p0 (TLoop i0) s -> 0 < i0 -> Forall (fun o => ~ touches k o) ops ->
+  spin (run ops s) = false -> Present x k s -> Present x k (run ops s).
+Proof.
+  induction ops as [|o ops IH]; intros s I T Hi Hto Hsp P; cbn; [exact P|]. inversion Hto; subst. cbn in Hsp.
+  assert (Es : spin s = false).
+  { destruct (spin s) eqn:E; [|reflexivity]. rewrite step_spin_frozen, run_spin_frozen in Hsp by (try rewrite step_spin_frozen; assumption). congruence. }
+  apply IH; try assumption; [apply step_inv, I|apply step_track, T|eapply step_present; eauto].
+Qed.
+
+(** * the statements of Properties/C20.v *)
+
+Lemma run_split pre o post s : run (pre ++ o :: post) s = run post (fst (step o (run pre s))).
+Proof. rewrite run_app. reflexivity. Qed.
+
+Lemma In_fires_of x s f : In f (fires_of x s) <-> In f (fired s) /\ f_id f = x.
+Proof. unfold fires_of. rewrite filter_In, N.eqb_eq. tauto. Qed.
+
+Lemma reach_inv ops : Inv (run ops init).
+Proof. apply run_inv, inv_init. Qed.
+
+Lemma after_sched pre o a recv ref p :
+  is_sched o a recv ref p -> spin (run pre init) = false -> a ∉ dead (run pre init) ->
+  exists tr nx,
+    fst (step o (run pre init)) = schedule (run pre init) a recv ref p tr nx /\
+    Inv (fst (step o (run pre init))) /\
+    Track (nid (run pre init)) a recv ref p tr (fst (step o (run pre init))) /\
+    ((exists d, o = OOnce a recv ref d p /\ tr = TOnce /\ nx = now (run pre init) + d) \/
+     (exists i, o = OLoop a recv ref i p /\ tr = TLoop i /\ nx = now (run pre init) + i) \/
+     (o = OCron a recv ref true p /\ tr = TCron)).
+Proof.
+  intros Hs Hsp Hd. destruct (sched_step o a recv ref p _ Hs Hsp Hd) as (tr & nx & E & K).
+  exists tr, nx. split; [exact E|]. split; [apply step_inv, reach_inv|]. split; [|exact K].
+  rewrite E. apply schedule_track, reach_inv.
+Qed.
+
+Lemma thm_payload pre o a recv ref p post f :
+  is_sched o a recv ref p -> spin (run pre init) = false -> a ∉ dead (run pre init) ->
+  In f (fires_of (nid (run pre init)) (run (pre ++ o :: post) init)) ->
+  f_owner f = a /\ f_recv f = recv /\ f_ref f = ref /\ f_payload f = p /\
+  (f_dead f = true -> recv ∈ dead (run (pre ++ o :: post) init)).
+Proof.
+  intros Hs Hsp Hd Hf. destruct (after_sched pre o a recv ref p Hs Hsp Hd) as (tr & nx & E & I' & T & _).
+  apply In_fires_of in Hf as [Hin Hid].
+  assert (DLf : DL (run (pre ++ o :: post) init)) by apply run_dl, dl_init.
+  rewrite run_split in Hin |- *.
+  pose proof (run_track _ _ _ _ _ _ post _ T) as T'.
+  destruct (tr_fir _ _ _ _ _ _ _ T' _ Hin Hid) as (Ho & Hr & Hf & Hp).
+  repeat (split; [assumption|]). intros Hdl. rewrite <- Hr. rewrite <- run_split. apply DLf; [rewrite run_split; exact Hin|exact Hdl].
+Qed.
+
+Lemma thm_once_safety pre a recv ref d p post :
+  spin (run pre init) = false -> a ∉ dead (run pre init) ->
+  (length (fires_of (nid (run pre init)) (run (pre ++ OOnce a recv ref d p :: post) init)) <= 1)%nat /\
+  (forall f, In f (fires_of (nid (run pre init)) (run (pre ++ OOnce a recv ref d p :: post) init)) ->
+             now (run pre init) + d <= f_time f).
+Proof.
+  intros Hsp Hd.
+  destruct (after_sched pre (OOnce a recv ref d p) a recv ref p (or_introl (ex_intro _ d eq_refl)) Hsp Hd) as (tr & nx & E & I' & T & K).
+  assert (tr = TOnce /\ nx = now (run pre init) + d) as [-> ->].
+  { destruct K as [(d' & [= <-] & ? & ?)|[(i & [=] & _)|([=] & _)]]. auto. }
+  rewrite run_split.
+  assert (O : OnceInv (nid (run pre init)) (now (run pre init) + d) (fst (step (OOnce a recv ref d p) (run pre init)))).
+  { rewrite E. apply schedule_once_inv, reach_inv. }
+  pose proof (run_once_inv _ _ _ _ _ _ post _ I' T O) as O'.
+  split; [apply O'|apply O'].
+Qed.
+
+Lemma step_now_le o s : now (fst (step o s)) <= now s + op_dt o /\ 0 <= op_dt o.
+Proof.
+  split; [|destruct o; cbn; lia]. destruct (spin s) eqn:E.
+  - rewrite step_spin_frozen by exact E. destruct o; cbn; lia.
+  - rewrite step_now by exact E. lia.
+Qed.
+Lemma run_now_le ops : forall s, now (run ops s) <= now s + elapsed ops.
+Proof.
+  induction ops as [|o ops IH]; intros s; [cbn; lia|]. rewrite elapsed_cons. cbn [run].
+  pose proof (IH (fst (step o s))). pose proof (step_now_le o s). lia.
+Qed.
+
+Lemma thm_cancel_stops pre o a recv ref p mid c post :
+  is_sched o a recv ref p -> spin (run pre init) = false -> a ∉ dead (run pre init) -> removes a ref c ->
+  fires_of (nid (run pre init)) (run (pre ++ o :: mid ++ c :: post) init) =
+  fires_of (nid (run pre init)) (run (pre ++ o :: mid) init).
+Proof.
+  intros Hs Hsp Hd R. destruct (after_sched pre o a recv ref p Hs Hsp Hd) as (tr & nx & E & I' & T & _).
+  rewrite !run_split.
+  set (s2 := run mid (fst (step o (run pre init)))).
+  assert (I2 : Inv s2) by (apply run_inv, I').
+  assert (T2 : Track (nid (run pre init)) a recv ref p tr s2) by (apply run_track, T).
+  destruct (spin s2) eqn:Es2.
+  - rewrite (step_spin_frozen c s2 Es2), (run_spin_frozen post s2 Es2). reflexivity.
+  - pose proof (step_removes _ _ _ _ _ _ c s2 I2 T2 R Es2) as G.
+    assert (Hnt : is_tick c = false) by (destruct R as [-> | [-> | [-> | ->]]]; reflexivity).
+    pose proof (step_track _ _ _ _ _ _ c _ T2) as T3.
+    destruct (run_gone _ post _ (step_inv c s2 I2) (tr_lt _ _ _ _ _ _ _ T3) G) as [_ Ef].
+    rewrite Ef. apply step_fires_nontick. exact Hnt.
+Qed.
+
+Lemma thm_once_cancelled pre a recv ref d p mid c post :
+  spin (run pre init) = false -> a ∉ dead (run pre init) -> removes a ref c -> elapsed mid < d ->
+  fires_of (nid (run pre init)) (run (pre ++ OOnce a recv ref d p :: mid ++ c :: post) init) = [].
+Proof.
+  intros Hsp Hd R Hel.
+  rewrite (thm_cancel_stops pre (OOnce a recv ref d p) a recv ref p mid c post (or_introl (ex_intro _ d eq_refl)) Hsp Hd R).
+  destruct (fires_of _ _) as [|f l] eqn:Ef; [reflexivity|exfalso].
+  assert (Hin : In f (fires_of (nid (run pre init)) (run (pre ++ OOnce a recv ref d p :: mid) init))) by (rewrite Ef; left; reflexivity).
+  pose proof (proj2 (thm_once_safety pre a recv ref d p mid Hsp Hd) f Hin) as Hge.
+  apply In_fires_of in Hin as [Hin _]. apply (inv_fired _ (reach_inv _)) in Hin as [_ Hle].
+  rewrite run_split in Hle. pose proof (run_now_le mid (fst (step (OOnce a recv ref d p) (run pre init)))) as Hn.
+  rewrite step_now in Hn by exact Hsp. cbn [op_dt] in Hn. lia.
+Qed.
+
+Lemma thm_once_delivered pre a recv ref d p post1 dt post2 :
+  spin (run pre init) = false -> a ∉ dead (run pre init) ->
+  tbl (run pre init) !! job_key a ref = None -> 0 <= d ->
+  no_stall post1 -> Forall (fun o => ~ touches (job_key a ref) o) post1 ->
+  d <= elapsed post1 + Z.max dt 0 ->
+  spin (run (pre ++ OOnce a recv ref d p :: post1 ++ OTick dt :: post2) init) = false ->
+  exists f,
+    fires_of (nid (run pre init)) (run (pre ++ OOnce a recv ref d p :: post1 ++ OTick dt :: post2) init) = [f] /\
+    f_time f = now (run pre init) + d /\ f_payload f = p /\ f_recv f = recv /\ f_owner f = a /\ f_ref f = ref /\
+    (recv ∉ dead (run (pre ++ OOnce a recv ref d p :: post1 ++ OTick dt :: post2) init) -> f_dead f = false).
+Proof.
+  intros Hsp Hd Hfree Hd0 Hns Hto Hel Hfin.
+  set (o := OOnce a recv ref d p) in *. set (x := nid (run pre init)). set (D := now (run pre init) + d).
+  assert (Hs : is_sched o a recv ref p) by (left; exists d; reflexivity).
+  destruct (after_sched pre o a recv ref p Hs Hsp Hd) as (tr & nx & E & I' & T & K).
+  assert (tr = TOnce /\ nx = D) as [-> ->].
+  { destruct K as [(d' & [= <-] & ? & ?)|[(i & [=] & _)|([=] & _)]]. auto. }
+  set (s1' := fst (step o (run pre init))) in *.
+  assert (O : OnceInv x D s1') by (rewrite E; apply schedule_once_inv, reach_inv).
+  assert (P : Pending x (job_key a ref) D s1').
+  { eexists. split; [rewrite E; apply schedule_tbl_lookup; right; split; [exact Hfree|split; reflexivity]|]. cbn. split; [reflexivity|].
+    rewrite E. cbn. lia. }
+  pose proof Hfin as Hfin'. rewrite run_split in Hfin'. fold s1' in Hfin'. rewrite run_app in Hfin'.
+  set (s2 := run post1 s1') in *.
+  assert (Es2 : spin s2 = false).
+  { destruct (spin s2) eqn:E2; [|reflexivity]. rewrite run_spin_frozen in Hfin' by exact E2. congruence. }
+  assert (I2 : Inv s2) by (apply run_inv, I').
+  assert (T2 : Track x a recv ref p TOnce s2) by (apply run_track, T).
+  assert (O2 : OnceInv x D s2) by (eapply run_once_inv; eauto).
+  assert (PD2 : Pending x (job_key a ref) D s2 \/ Done x D s2) by (eapply run_once_progress; eauto).
+  assert (Hn2 : now s2 = now (run pre init) + elapsed post1).
+  { unfold s2. rewrite run_now by exact Es2. unfold s1'. rewrite step_now by exact Hsp. cbn [op_dt o]. lia. }
+  assert (D3 : Done x D (fst (step (OTick dt) s2))).
+  { destruct PD2 as [P2|D2].
+    - eapply (proj2 (step_once_progress x a recv ref p (job_key a ref) D (OTick dt) s2 I2 T2 O2 Es2 eq_refl (fun H => H) P2)); [reflexivity|].
+      unfold D. lia.
+    - apply (done_stable x D [OTick dt] s2 I2 (tr_lt _ _ _ _ _ _ _ T2) D2). }
+  pose proof (step_track _ _ _ _ _ _ (OTick dt) _ T2) as T3.
+  pose proof (done_stable x D post2 _ (step_inv (OTick dt) s2 I2) (tr_lt _ _ _ _ _ _ _ T3) D3) as [_ (f & Ef & Ht)].
+  assert (Efin : run (pre ++ o :: post1 ++ OTick dt :: post2) init = run post2 (fst (step (OTick dt) s2))).
+  { rewrite run_split. fold s1'. rewrite run_app. reflexivity. }
+  exists f. rewrite Efin. split; [exact Ef|]. split; [exact Ht|].
+  assert (Hin : In f (fires_of x (run (pre ++ o :: post1 ++ OTick dt :: post2) init))) by (rewrite Efin, Ef; left; reflexivity).
+  destruct (thm_payload pre o a recv ref p (post1 ++ OTick dt :: post2) f Hs Hsp Hd Hin) as (Ho & Hr & Hrf & Hp & Hdl).
+  repeat (split; [assumption|]). intros Hnd. destruct (f_dead f); [|reflexivity]. exfalso. apply Hnd. rewrite <- Efin. apply Hdl. reflexivity.
+Qed.
+
+Lemma step_neg x a0 recv0 ref0 p0 D o s :
+  Inv s -> Track x a0 recv0 ref0 p0 TOnce s -> OnceInv x D s -> D < now s - thr -> fires_of x s = [] ->
+  fires_of x (fst (step o s)) = [].
+Proof.
+  intros I T O Hlt Hf. destruct (spin s) eqn:Es; [rewrite step_spin_frozen by exact Es; exact Hf|].
+  destruct (is_tick o) eqn:Et; [|rewrite step_fires_nontick by exact Et; exact Hf].
+  destruct o; try discriminate. rewrite step_tick by exact Es.
+  destruct (gone_dec x s) as [G|(k & j & Hj & Hid)].
+  - destruct (step_gone x (OTick dt) s I (tr_lt _ _ _ _ _ _ _ T) G) as [_ E]. rewrite step_tick in E by exact Es. congruence.
+  - destruct (tick_fires_job x dt s k j I Hj Hid) as (Ef & _ & _).
+    destruct (tr_job _ _ _ _ _ _ _ T _ _ Hj Hid) as (_ & _ & _ & _ & Htr).
+    destruct (oi_job _ _ _ O _ _ Hj Hid) as [Hn _]. rewrite Hf in Ef. cbn [app] in Ef.
+    unfold advance in Ef. rewrite Htr, Hn in Ef. assert (Hthr : thr = 100) by reflexivity.
+    rewrite (proj2 (Z.ltb_ge (now s + Z.max dt 0) D)) in Ef by lia.
+    rewrite (proj2 (Z.ltb_lt D (now s - thr))) in Ef by lia. exact Ef.
+Qed.
+
+Lemma run_neg x a0 recv0 ref0 p0 D ops : forall s,
+  Inv s -> Track x a0 recv0 ref0 p0 TOnce s -> OnceInv x D s -> D < now s - thr -> fires_of x s = [] ->
+  fires_of x (run ops s) = [].
+Proof.
+  induction ops as [|o ops IH]; intros s I T O Hlt Hf; cbn; [exact Hf|].
+  apply IH; [apply step_inv, I|apply step_track, T|eapply step_once_inv; eauto| |eapply step_neg; eauto].
+  pose proof (step_now_mono o s). lia.
+Qed.
+
+Lemma thm_once_negative pre a recv ref d p post :
+  spin (run pre init) = false -> a ∉ dead (run pre init) -> d < - thr ->
+  fires_of (nid (run pre init)) (run (pre ++ OOnce a recv ref d p :: post) init) = [].
+Proof.
+  intros Hsp Hd Hneg.
+  destruct (after_sched pre (OOnce a recv ref d p) a recv ref p (or_introl (ex_intro _ d eq_refl)) Hsp Hd) as (tr & nx & E & I' & T & K).
+  assert (tr = TOnce /\ nx = now (run pre init) + d) as [-> ->].
+  { destruct K as [(d' & [= <-] & ? & ?)|[(i & [=] & _)|([=] & _)]]. auto. }
+  rewrite run_split. eapply run_neg; eauto.
+  - rewrite E. apply schedule_once_inv, reach_inv.
+  - rewrite step_now by exact Hsp. cbn [op_dt]. lia.
+  - rewrite E, schedule_fires. apply fires_of_fresh; [apply reach_inv|lia].
+Qed.
+
+Lemma schedule_loop_inv s a recv ref p i : Inv s -> 0 < i ->
+  LoopInv (nid s) (now s) i (schedule s a recv ref p (TLoop i) (now s + i)).
+Proof.
+  intros I Hi. exists 0%nat. rewrite schedule_fires, fires_of_fresh by (auto; lia). split; [reflexivity|]. split; [cbn; lia|].
+  intros k j H Hid. apply schedule_tbl_lookup in H as [H|(_ & _ & ->)]; [pose proof (inv_idlt _ I _ _ H); lia|].
+  cbn. lia.
+Qed.
+
+Lemma thm_loop_grid pre a recv ref i p post :
+  spin (run pre init) = false -> a ∉ dead (run pre init) -> 0 < i -> no_stall post ->
+  exists m : nat,
+    map f_time (fires_of (nid (run pre init)) (run (pre ++ OLoop a recv ref i p :: post) init)) = grid (now (run pre init)) i m /\
+    now (run pre init) + Z.of_nat m * i <= now (run (pre ++ OLoop a recv ref i p :: post) init).
+Proof.
+  intros Hsp Hd Hi Hns.
+  destruct (after_sched pre (OLoop a recv ref i p) a recv ref p (or_intror (or_introl (ex_intro _ i eq_refl))) Hsp Hd) as (tr & nx & E & I' & T & K).
+  assert (tr = TLoop i /\ nx = now (run pre init) + i) as [-> ->].
+  { destruct K as [(d' & [=] & _)|[(i' & [= <-] & ? & ?)|([=] & _)]]. auto. }
+  rewrite run_split.
+  assert (L : LoopInv (nid (run pre init)) (now (run pre init)) i (fst (step (OLoop a recv ref i p) (run pre init)))).
+  { rewrite E. apply schedule_loop_inv; [apply reach_inv|exact Hi]. }
+  destruct (run_loop_inv _ _ _ _ _ _ _ post _ I' T Hi Hns L) as (m & Hf & Hle & _). exists m. auto.
+Qed.
+
+Lemma thm_loop_exact pre a recv ref i p post :
+  spin (run pre init) = false -> a ∉ dead (run pre init) ->
+  tbl (run pre init) !! job_key a ref = None -> 0 < i ->
+  no_stall post -> Forall (fun o => ~ touches (job_key a ref) o) post ->
+  spin (run (pre ++ OLoop a recv ref i p :: post) init) = false ->
+  map f_time (fires_of (nid (run pre init)) (run (pre ++ OLoop a recv ref i p :: post) init)) =
+  grid (now (run pre init)) i
+       (Z.to_nat ((now (run (pre ++ OLoop a recv ref i p :: post) init) - now (run pre init)) / i)).
+Proof.
+  intros Hsp Hd Hfree Hi Hns Hto Hfin.
+  destruct (after_sched pre (OLoop a recv ref i p) a recv ref p (or_intror (or_introl (ex_intro _ i eq_refl))) Hsp Hd) as (tr & nx & E & I' & T & K).
+  assert (tr = TLoop i /\ nx = now (run pre init) + i) as [-> ->].
+  { destruct K as [(d' & [=] & _)|[(i' & [= <-] & ? & ?)|([=] & _)]]. auto. }
+  rewrite run_split in Hfin |- *.
+  assert (L : LoopInv (nid (run pre init)) (now (run pre init)) i (fst (step (OLoop a recv ref i p) (run pre init)))).
+  { rewrite E. apply schedule_loop_inv; [apply reach_inv|exact Hi]. }
+  assert (P : Present (nid (run pre init)) (job_key a ref) (fst (step (OLoop a recv ref i p) (run pre init)))).
+  { eexists. split; [rewrite E; apply schedule_tbl_lookup; right; split; [exact Hfree|split; reflexivity]|reflexivity]. }
+  destruct (run_loop_inv _ _ _ _ _ _ _ post _ I' T Hi Hns L) as (m & Hf & Hle & Hjob).
+  destruct (run_present _ _ _ _ _ _ _ post _ I' T Hi Hto Hfin P) as (j & Hj & Hid).
+  destruct (Hjob _ _ Hj Hid) as [Hn Hlt]. rewrite Hn in Hlt.
+  rewrite Hf. f_equal.
+  set (nw := now (run post (fst (step (OLoop a recv ref i p) (run pre init))))) in *.
+  set (t0 := now (run pre init)) in *.
+  assert (Hq : Z.of_nat m = (nw - t0) / i).
+  { apply (Z.div_unique_pos (nw - t0) i (Z.of_nat m) (nw - t0 - i * Z.of_nat m)); lia. }
+  rewrite <- Hq. lia.
+Qed.
+
+Lemma thm_cron_invalid s a recv ref p :
+  spin s = false -> is_dead s a = false -> step (OCron a recv ref false p) s = (s, RParseErr).
+Proof. intros Hs Hd. unfold step. rewrite Hs. unfold if_alive. rewrite Hd. reflexivity. Qed.
+
+Lemma thm_registered ops k j :
+  tbl (run ops init) !! k = Some j ->
+  k = job_key (j_owner j) (j_ref j) /\
+  jk_of (run ops init) (j_owner j) !! j_ref j = Some k /\
+  j_owner j ∉ dead (run ops init).
+Proof.
+  intros H. pose proof (reach_inv ops) as I.
+  split; [exact (inv_key _ I _ _ H)|]. split; [exact (inv_own _ I _ _ H)|exact (inv_alive _ I _ _ H)].
+Qed.
+
+Lemma thm_jobkeys_render ops a r k : jk_of (run ops init) a !! r = Some k -> k = job_key a r.
+Proof. apply (inv_jk _ (reach_inv ops)). Qed.
+
+Lemma thm_cancel_unknown s a ref :
+  spin s = false -> is_dead s a = false -> jk_of s a !! ref = None -> step (OCancel a ref) s = (s, RNotFound).
+Proof. intros Hs Hd Hn. unfold step. rewrite Hs. unfold if_alive. rewrite Hd. unfold cancel. rewrite Hn. reflexivity. Qed.
+
+Lemma thm_death ops (a : bytes) :
+  a ∈ dead (run ops init) ->
+  (forall k j, tbl (run ops init) !! k = Some j -> j_owner j <> a) /\ jk_of (run ops init) a = ∅.
+Proof. apply dead_no_jobs, reach_inv. Qed.
+
+Lemma thm_death_no_fire pre (a : bytes) post f :
+  spin (run pre init) = false ->
+  In f (fired (run (pre ++ ODied a :: post) init)) -> f_owner f = a -> In f (fired (run pre init)).
+Proof.
+  intros Hsp Hin Ho. rewrite run_split in Hin.
+  apply (run_fired_dead_owner post a f _ (step_inv _ _ (reach_inv pre)) (died_is_dead _ a Hsp)) in Hin; [|exact Ho].
+  rewrite step_fired in Hin. rewrite Hsp, app_nil_r in Hin. exact Hin.
+Qed.
+
+Lemma thm_restart pre (a : bytes) :
+  spin (run pre init) = false -> a ∉ dead (run pre init) ->
+  (forall k j, tbl (run (pre ++ [ORestarted a]) init) !! k = Some j -> j_owner j <> a) /\
+  jk_of (run (pre ++ [ORestarted a]) init) a = ∅.
+Proof. intros Hs Hd. rewrite run_split. cbn [run]. apply restarted_clears; [apply reach_inv|exact Hs|exact Hd]. Qed.
